@@ -453,6 +453,12 @@ def eval_term(st, term):
                 return a
             return (0, b[1] - 1)
         return None
+    if op == 'div_euclid':
+        b = get_iv(st, term[2])
+        if b[0] > 0 and b[0] == b[1]:
+            a = get_iv(st, term[1])
+            return (a[0] // b[0] if a[0] != -INF else -INF, a[1] // b[0] if a[1] != INF else INF)
+        return None
     if op in CMP_SETS:
         t, f = cmp_possible(st, op, term[1], term[2])
         return (0 if f else 1, 1 if t else 0)
@@ -932,3 +938,33 @@ def sources(vids, limit=20000):
         if not expanded:
             out.add(v)
     return out, tags
+
+
+def divmod_euclid(st, x, c):
+    """(q, r) with x = c*q + r and 0 <= r < c (Euclidean division by a positive constant)"""
+    lo, hi = get_iv(st, x)
+    key = (x, c, 'euclid')
+    got = DIVMOD.get(key)
+    if got is None and lo >= 0:
+        return divmod_vids(st, x, c)      # coincides with truncating division
+    if got is None:
+        q = new_vid(); r = new_vid()
+        cv = const_vid(c)
+        TERM[q] = ('div_euclid', x, cv)
+        TERM[r] = ('rem_euclid', x, cv)
+        USERS.setdefault(x, []).extend([q, r])
+        GRANGE[r] = (0, c - 1)
+        t = (x, c, q, r)
+        DIVMOD[key] = (q, r)
+        for v in {x, q, r}:
+            TRIPLES.setdefault(v, []).append(t)
+        got = (q, r)
+    q, r = got
+    ql = lo // c if lo != -INF else -INF
+    qh = hi // c if hi != INF else INF
+    oq = get_iv(st, q)
+    st.iv[q] = (max(ql, oq[0]), min(qh, oq[1]))
+    orr = get_iv(st, r)
+    st.iv[r] = (max(0, orr[0]), min(c - 1, orr[1]))
+    _enforce_triples(st, x, 0)
+    return q, r
